@@ -14,7 +14,7 @@ class Check(PropertyCheck):
     ID = "C17"
     LEAN_MODULE = "JobShopProofs.Properties.C17"
     THEOREMS = ["JS.C17_built_inv", "JS.C17_no_dangling_edges", "JS.C17_removed_monotone", "JS.C17_removeNode_spec",
-                "JS.residualUpdate_inv"]
+                "JS.C17_completed_removed", "JS.residualUpdate_inv"]
     RULE = ("positive-duration instances (classic, irregular, recirculation, flexible, unused machine ids) x the four graph "
             "builders x the four option combinations of ResidualGraphUpdater x optional extra observers created before it x "
             "filter configuration; after every dispatch of a random history (and after a reset + second episode) the removed "
